@@ -1,4 +1,4 @@
-import Srctools.Proofs.C04Inv
+import Srctools.Proofs.C04InvOk
 import Srctools.Gen.Rot
 /-!
 # C04 — Angles, matrices and vectors obey the rotation algebra
@@ -218,7 +218,22 @@ theorem C04_inverse_rotation (eps : K) (he : 0 ≤ eps) (M N : Mat K) (hM : IsRo
     _ = matMul (matMul N M) (transpose M) := (matMul_assoc _ _ _).symm
     _ = transpose M := by rw [h1, one_matMul]
 
+/-- **`inverse()` never raises on a rotation and returns its transpose** (for every threshold
+`0 ≤ eps < 1/8`; the code's is `0.00001`, see `C04_gen_eps_small`): partial pivoting keeps the
+multipliers ≤ 1, so the rows stay bounded by 1, 2, 4 while `|det| = 1`, which forces every
+diagonal entry to be at least 1/8 in absolute value. -/
+theorem C04_inverse_succeeds (eps : K) (he0 : 0 ≤ eps) (he : eps < 1 / 8) (M : Mat K)
+    (hM : IsRotation M) : gaussJordanInverse eps M = some (transpose M) := by
+  obtain ⟨s, hs⟩ := gaussJordan_ok hM he0 he
+  have h : gaussJordanInverse eps M = some (matOfRows s.r) := by
+    simp only [gaussJordanInverse, hs, Option.map_some]
+  rw [h, C04_inverse_rotation eps he0 M _ hM h]
+
 end ToAngle
+
+/-- OBLIGATION: the literal of the diagonal test of `inverse()` is in the range for which
+`C04_inverse_succeeds` holds. -/
+theorem C04_gen_eps_small : 0 ≤ Gen.Rot.eps ∧ Gen.Rot.eps < 1 / 8 := by decide +kernel
 
 /-! ## Operand dispatch (7 × 7 × 3 table) -/
 
